@@ -69,6 +69,17 @@ pub fn explore(c: &mut Case, env: &Env, wb: i32, bytes: &[u8], si_all_max: usize
     if !big {
         scheds.push(ISched::uniform(1, 1, Z_NO_FLUSH));
     }
+    if big {
+        // three phases around a window's worth of output: a small first call (the window write position leaves 0), a
+        // call that produces a whole window or more, then small calls whose matches reach back across that point
+        for a in [1usize, 100, 16384, 32767] {
+            for b in [32768usize, 32769, 40000, 65536] {
+                for tail in [263usize, 4096] {
+                    scheds.push(ISched { steps: vec![IStep { n: AMPLE, room: a, flush: Z_NO_FLUSH }, IStep { n: AMPLE, room: b, flush: Z_NO_FLUSH }], tail_in: AMPLE, tail_room: tail, tail_flush: Z_NO_FLUSH });
+                }
+            }
+        }
+    }
     for f in [Z_SYNC_FLUSH, Z_BLOCK, Z_TREES, Z_FINISH] {
         scheds.push(ISched::uniform(AMPLE, AMPLE, f));
         if !big {
@@ -94,6 +105,61 @@ pub fn explore(c: &mut Case, env: &Env, wb: i32, bytes: &[u8], si_all_max: usize
                 scheds.push(ISched::uniform(AMPLE, r, Z_NO_FLUSH));
             }
         }
+    }
+    // the same through the safe wrapper (zlib_rs::Inflate): status, output and its own totals under three chunkings
+    // must coincide with each other and with the one-call C-API run, also when the stream ends in an error
+    if n <= 400 && (wb <= -8 || wb >= 8) {
+        let (hdr, wbits) = if wb < 0 { (false, (-wb) as u8) } else { (true, wb as u8) };
+        let mut seen: Vec<(String, u64, u64, Vec<u8>)> = vec![];
+        for (in_chunk, out_chunk) in [(usize::MAX, 70000usize), (1, 70000), (7, 3)] {
+            c.exec();
+            let mut inf = zlib_rs::Inflate::new(hdr, wbits);
+            let mut out: Vec<u8> = vec![];
+            let mut buf = vec![0u8; out_chunk];
+            let mut pos = 0usize;
+            let mut calls = 0usize;
+            let verdict = loop {
+                let take = in_chunk.min(n - pos);
+                let (ti, to) = (inf.total_in(), inf.total_out());
+                let r = inf.decompress(&bytes[pos..pos + take], &mut buf, zlib_rs::InflateFlush::NoFlush);
+                calls += 1;
+                let din = (inf.total_in() - ti) as usize;
+                let dout = (inf.total_out() - to) as usize;
+                if din > take || dout > buf.len() {
+                    return Err(format!("Inflate::decompress accounts {din} of {take} input bytes, {dout} of {} output bytes", buf.len()));
+                }
+                out.extend_from_slice(&buf[..dout]);
+                pos += din;
+                match r {
+                    Ok(zlib_rs::Status::StreamEnd) => break "StreamEnd".to_string(),
+                    Err(e) => break format!("{e:?}"),
+                    Ok(_) => {
+                        if din == 0 && dout == 0 && pos == n {
+                            break "NeedMore".to_string();
+                        }
+                    }
+                }
+                if calls > 40 * (n + 100) + 80000 {
+                    return Err("Inflate wrapper does not finish".into());
+                }
+            };
+            seen.push((verdict, inf.total_in(), inf.total_out(), out));
+        }
+        if seen.iter().any(|x| *x != seen[0]) {
+            return Err(format!("zlib_rs::Inflate: verdict / total_in / total_out depend on the chunking: one call {:?}, 1-byte input {:?}, 7-byte input and 3-byte output {:?}", (&seen[0].0, seen[0].1, seen[0].2), (&seen[1].0, seen[1].1, seen[1].2), (&seen[2].0, seen[2].1, seen[2].2)));
+        }
+        // the wrapper and the C API decode with one decoder
+        let c_verdict = match base.fin {
+            Fin::StreamEnd => "StreamEnd".to_string(),
+            Fin::DataError => "DataError".to_string(),
+            Fin::NeedMore => "NeedMore".to_string(),
+            Fin::NeedDict(id) => format!("NeedDict {{ dict_id: {id} }}"),
+            other => format!("{other:?}"),
+        };
+        if seen[0].0 != c_verdict || seen[0].3 != base.out || seen[0].1 as usize != base.consumed || seen[0].2 as usize != base.out.len() {
+            return Err(format!("zlib_rs::Inflate ends with {} after {} bytes in / {} out, the C API with {c_verdict} after {} in / {} out", seen[0].0, seen[0].1, seen[0].2, base.consumed, base.out.len()));
+        }
+        c.count("rust_wrapper_schedules", 3);
     }
     for sch in &scheds {
         c.exec();
